@@ -1,14 +1,24 @@
 #!/bin/bash
-# tools/seeded.sh <ID> <worktree> <checks...> : verify a seeded change (suite + demo) and run checks against it
-# Uses SIMFLOX_REPO=<worktree> (the worktree has the change applied); /repo is never touched.
-id=$1; wt=$2; shift 2
+# tools/seeded.sh <ID> <dir with patch.diff + demo.py> <checks...>
+# Verifies a seeded change on scratch copies (never /repo, never git stash: the stash is shared by all
+# worktrees of a repository): orig = `git archive <base>`, changed = orig + patch.diff.
+#   env: BASE=<commit> (default: /repo HEAD), SKIP_SUITE=1, SEED_BUDGET_S, SUITE_N
+id=$1; src=$2; shift 2
 cd "$(dirname "$0")/.."
-out=/tmp/seeded-$id; mkdir -p $out
-echo "== demo with change"; (cd $wt && timeout 600 /venv/bin/python demo.py >/dev/null 2>&1; echo "rc=$?")
-echo "== demo without change"; (cd $wt && git stash -q && timeout 600 /venv/bin/python demo.py >/dev/null 2>&1; echo "rc=$?"; git stash pop -q)
-if [ -z "$SKIP_SUITE" ]; then echo "== suite with change"; tools/baseline.py $wt -n ${SUITE_N:-8} | tail -3; fi
+base=${BASE:-$(git -C /repo rev-parse HEAD)}
+top=/tmp/seedtest-$id; rm -rf $top; mkdir -p $top/orig $top/changed $top/out
+git -C /repo archive $base | tar -x -C $top/orig
+git -C /repo archive $base | tar -x -C $top/changed
+cp /repo/flox/_version.py $top/orig/flox/ 2>/dev/null; cp /repo/flox/_version.py $top/changed/flox/ 2>/dev/null
+if ! (cd $top/changed && patch -p1 -s < $src/patch.diff); then echo "PATCH DOES NOT APPLY to $base"; fi
+cp $src/demo.py $top/orig/; cp $src/demo.py $top/changed/
+echo "== base $base"
+echo "== demo with change";    (cd $top/changed && timeout 900 /venv/bin/python demo.py >/dev/null 2>&1; echo "rc=$?")
+echo "== demo without change"; (cd $top/orig    && timeout 900 /venv/bin/python demo.py >/dev/null 2>&1; echo "rc=$?")
+if [ -z "$SKIP_SUITE" ]; then echo "== suite with change"; tools/baseline.py $top/changed -n ${SUITE_N:-8} | tail -2; fi
 for c in "$@"; do
   t0=$(date +%s)
-  o=$(SIMFLOX_REPO=$wt SIMFLOX_EVIDENCE_DIR=$out VERIF_DET_RATE=0 VERIF_BUDGET_S=${SEED_BUDGET_S:-45} ./check $c --tier quick 2>&1); rc=$?
+  o=$(SIMFLOX_REPO=$top/changed SIMFLOX_EVIDENCE_DIR=$top/out VERIF_DET_RATE=0 VERIF_BUDGET_S=${SEED_BUDGET_S:-45} ./check $c --tier quick 2>&1); rc=$?
   echo "== $c rc=$rc $(( $(date +%s) - t0 ))s :: $(echo "$o" | grep -E '^minimised|^HARNESS' | cut -c1-400)"
 done
+[ -z "$KEEP_SCRATCH" ] && rm -rf $top/orig $top/changed
